@@ -351,6 +351,8 @@ pub fn write_float_nonscientific<const FORMAT: u128>(
     }
 
     // Determine if we need to add more trailing zeros.
+    // NOTE: trailing zeros were trimmed since, which may have been all the digits.
+    let zero_count = zero_count.min(digit_count - 1);
     let exact_count = shared::min_exact_digits(digit_count - zero_count, options) + zero_count;
 
     // Write any trailing digits to the output.
